@@ -27,6 +27,8 @@ def prepare(spec, ctx):
     sx.PARAM_NAMES.clear()
     if "d" in spec:
         sx.PARAM_NAMES.update(rt.syms_of(spec["d"]))
+    if spec.get("pre_variant"):
+        sx.PARAM_NAMES.update(rt.syms_of(spec["pre_variant"]))
     ctx.assume = [assumption(a, ctx.consts) for a in spec.get("assume", [])]
     if "d" in spec:
         d = rt.strip_share(spec["d"])
@@ -134,7 +136,7 @@ def eq_value_vc(name, ctx, out, ref, guard, idx, twin=False):
                     f"value is {mpmath.nstr(r, 17)}")
         return None
 
-    return VC(name, z3.And(guard, t != refq), judge)
+    return VC(name, z3.And(guard, t != refq), judge, {"candidates": ctx.spec.get("candidates", [])} if getattr(ctx, "spec", None) and ctx.spec.get("candidates") else None)
 
 
 def kind_vc(name, ctx, out, allowed_when, idx):
